@@ -12,6 +12,10 @@ Oracle (from the property statement):
    verdict so that it can be triaged separately); an operation that dies with the constructor
    guard "unyt_quantity instances must be scalars" tried to build a multi-element quantity
    (`quantity-ctor-raised`).  Any other exception is accepted (counted as trivial).
+   Failure keys are C16[<section>:<site>:<verdict>], one site per ufunc / function / accessor.  Two
+   diffuse families are lumped into one key each (their witnesses are listed in the notes): results of
+   class-preserving functions on a 0-d unyt_array *input* (an object that already breaks the
+   invariant), and non-() views of a unyt_quantity input that stay unyt_quantity.
  * indexing / iteration: result == NumPy's on the bare data, with the parent's units and name.
  * memory: view accessors share memory and writes go through both ways; copying accessors do not.
  * construction: unyt_array(ndarray, unit) is a view; ndarray*unit, unit*ndarray are copies; a list
@@ -19,7 +23,6 @@ Oracle (from the property statement):
    lists raise IterableUnitCoercionError.
 """
 import collections
-import itertools
 import os
 import re
 import sys
@@ -35,7 +38,7 @@ R = Run("C16",
         "dtypes int64/float64/complex128 (+ int8/float32/complex64 in thorough) x operand kinds "
         "quantity / 0-d unyt_array / unyt_array / 0-d ndarray / ndarray / python scalar / numpy scalar / list: "
         "(A) every ufunc of unyt_array._ufunc_registry called, with out=, and as reduce/accumulate/outer/"
-        "reduceat; (B) python operators; (C) a catalogue of NumPy functions, ndarray methods and unyt "
+        "reduceat (ufuncs that return bare data get a thin sweep in quick); (B) python operators; (C) a catalogue of NumPy functions, ndarray methods and unyt "
         "conversion methods; (D) Unit*data, data*Unit, data/Unit, Unit/data; (E) unyt_quantity constructor "
         "guard and reshape; (F) a deterministic list of index forms per shape + seeded random composite "
         "indices, iteration; (G) view accessors vs copying accessors (shares_memory and write-through both "
@@ -64,7 +67,7 @@ deadline_hit = []
 
 DEBUG = bool(os.environ.get("C16_DEBUG"))
 raise_samples = {}
-BUDGET = R.args.budget or (520.0 if R.thorough else 50.0)
+BUDGET = R.args.budget or (540.0 if R.thorough else 55.0)
 
 
 def comp(src, mode):
@@ -133,7 +136,8 @@ def evaluate(section, site, fine, setup, expr, check="_cls(r)", lump=None, raise
         found = eval(comp(check, "eval"), ns)
     except Exception as e:
         setup_skips[section + ":check:" + type(e).__name__] += 1
-        R.notes.append("checker failed for %s | %s | %s: %r" % (setup, expr, check, e)) if len(R.notes) < 20 else None
+        if len(R.notes) < 20:
+            R.notes.append("checker failed for %s | %s | %s: %r" % (setup, expr, check, e))
         return None
     nontrivial = _has_unyt(r) or check != "_cls(r)"
     R.case(ckey, nontrivial=nontrivial, sample=sample)
@@ -166,7 +170,7 @@ def out_of_time(section):
 # operands as source text
 DT_QUICK = ["float64", "int64", "complex128"]
 DT_ALL = DT_QUICK + ["float32", "int8", "complex64"]
-DTYPES = DT_ALL if R.thorough else DT_QUICK
+DTYPES = DTYPES_ALL = DT_ALL if R.thorough else DT_QUICK
 OFFSETS = [R.rng.randrange(0, 6) for _ in range(3 if R.thorough else 1)]
 SHAPES = [(), (1,), (1, 1), (3,), (2, 3), (2, 1, 3), (0,), (0, 3)]
 
@@ -205,7 +209,7 @@ SHAPE_PAIRS = [((), ()), ((), (1,)), ((1,), ()), ((), (3,)), ((3,), ()), ((1,), 
                ((0, 3), (3,)), ((2, 3), ())]
 MAT_PAIRS = [((3,), (3,)), ((1,), (1,)), ((2, 3), (3,)), ((3,), (3, 2)), ((2, 3), (3, 2)), ((1, 3), (3, 1)),
              ((2, 2, 3), (3,)), ((0,), (0,)), ((2, 0), (0, 2)), ((2, 3), (2, 3)), ((1, 3), (1, 3))]
-UNIT_PAIRS = [("m", "m"), ("km", "m"), ("m", "s"), ("dimensionless", "dimensionless")]
+UNIT_PAIRS = UNIT_PAIRS_ALL = [("m", "m"), ("km", "m"), ("m", "s"), ("dimensionless", "dimensionless")]
 
 
 def kind_pairs(s0, s1):
@@ -217,14 +221,27 @@ def kind_pairs(s0, s1):
 
 # ----------------------------------------------------------------------------------------------
 # A. ufuncs
+# ufuncs that return bare data (or always raise) on unyt input, from the property's reading of the ufunc
+# table: transcendental, rounding-to-number, comparison, logical, predicate and bit-twiddling ufuncs.
+# They can only violate C16 by returning a mis-classed unyt object, so quick gives them a thin sweep.
+NO_UNIT = {"logaddexp", "logaddexp2", "rint", "sign", "exp", "exp2", "log", "log2", "log10", "expm1", "log1p", "sin",
+           "cos", "tan", "sinh", "cosh", "tanh", "arcsin", "arccos", "arctan", "arcsinh", "arccosh", "arctanh",
+           "deg2rad", "rad2deg", "bitwise_and", "bitwise_or", "bitwise_xor", "invert", "left_shift", "right_shift",
+           "greater", "greater_equal", "less", "less_equal", "not_equal", "equal", "logical_and", "logical_or",
+           "logical_xor", "logical_not", "isfinite", "isinf", "isnan", "signbit", "ldexp", "frexp", "isnat"}
+
+
 def section_ufuncs():
     sec = "ufunc"
-    names = sorted(UF)
+    names = sorted(n for n in UF if n not in NO_UNIT) + sorted(n for n in UF if n in NO_UNIT)
     for name in names:
         uf = UF[name]
         if out_of_time(sec):
             return
         call = "UF[%r]" % name
+        thin = name in NO_UNIT and not R.thorough
+        DTYPES = ["float64", "int64"] if thin else DTYPES_ALL
+        UNIT_PAIRS = UNIT_PAIRS_ALL[:1] + UNIT_PAIRS_ALL[3:] if thin else UNIT_PAIRS_ALL
         if uf.nin == 1:
             for k in OFFSETS:
                 for shape in SHAPES:
@@ -234,7 +251,8 @@ def section_ufuncs():
                                 setup = "x = " + operand(kind, shape, dt, unit, k)
                                 fine = "%s%s %s %s k%d" % (kind, shape, dt, unit, k)
                                 evaluate(sec, name, "call " + fine, setup, "%s(x)" % call,
-                                         sample={"ufunc": name, "x": setup})
+                                         sample={"ufunc": name, "x": setup} if name == "modf" and shape == ()
+                                         and kind == "A" and dt == "float64" and unit == "m" else None)
                                 if unit != "m" or np.dtype(dt).kind == "i":
                                     continue
                                 # out= as unyt buffer with a foreign unit (quantity for 0-d results, 0-d
@@ -279,7 +297,7 @@ def section_ufuncs():
                                         o = "tuple(%s for t in %s)" % (wrap % "t", bare)
                                     evaluate(sec, name, "call+out " + fine + om, setup + "\no = " + o,
                                              "%s(x, y, out=o)" % call)
-            if uf.signature:
+            if uf.signature or thin:
                 continue
             # reduce / accumulate / reduceat on unyt arrays
             for k in OFFSETS[:1]:
@@ -351,7 +369,9 @@ def section_operators():
                     setup = "x = " + operand(kind, shape, dt, unit, k)
                     for site, ex in UN_OPS:
                         evaluate(sec, site, "%s %s%s %s %s" % (ex, kind, shape, dt, unit), setup, ex,
-                                 sample={"op": ex, "x": setup} if site == "pos" else None)
+                                 sample={"op": ex, "x": setup}
+                                 if site == "pos" and shape == () and kind == "A" and dt == "float64" and unit == "m"
+                                 else None)
     done = set()
     for s0, s1 in SHAPE_PAIRS:
         for k0, k1 in kind_pairs(s0, s1):
@@ -515,7 +535,8 @@ def section_unitmul():
                 if "array" in dname and form in ("data*unit", "unit*data"):
                     check = "_cls(r) + _mem_copy(r, d)"
                 evaluate(sec, form, "%s %s %s" % (dname, dsrc, ustr), setup, ex, check,
-                         sample={"expr": ex, "setup": setup} if dname == "list1" else None)
+                         sample={"expr": ex, "setup": setup}
+                         if dname == "list1" and ustr == "m" and form == "data*unit" else None)
 
 
 # ----------------------------------------------------------------------------------------------
@@ -631,7 +652,6 @@ def section_index():
         setup = ("x = unyt_array(_arr(%r, %r, %d), 'km', name='xname')\n" % (shape, dt, k) if kind == "A" else
                  "x = unyt_quantity(np.%s(%s), 'km', name='xname')\n" % (np.dtype(dt).name, lit(dt, k)))
         setup += "b = _bare(x)\ntry:\n    e = b%s\nexcept IndexError:\n    e = None" % src
-        ns = {}
         check = "_idx(r, x, e)"
         if basic:
             check += " + (_mem_view(r, x) if isinstance(e, np.ndarray) and e.ndim >= 1 else [])"
@@ -647,7 +667,8 @@ def section_index():
             setup_skips[sec + ":numpy-IndexError"] += 1
             return
         evaluate(sec, pk, "%s %s%s %s %s" % (src, kind, shape, dt, tag), setup, "x" + src, check,
-                 raises_is_failure=True, sample={"index": "x" + src, "shape": shape} if src == "[..., 0]" else None)
+                 raises_is_failure=True, sample={"index": "x" + src, "shape": shape}
+                 if src == "[..., 0]" and shape == (2, 3) and dt == "float64" else None)
 
     for shape in shapes:
         for kind in (["Q", "A"] if shape == () else ["A"]):
@@ -713,7 +734,8 @@ def section_memory():
                             if ex == "x[0]" and len(shape) < 2:
                                 continue   # an element, not a slice: NumPy returns a scalar
                             evaluate("mem-view", ex, fine, setup, ex, "_mem_view(r, x)",
-                                     sample={"view": ex, "x": setup} if ex == "x.T" and shape == (2, 3) else None)
+                                     sample={"view": ex, "x": setup} if ex == "x.T" and shape == (2, 3)
+                                     and dt == "float64" else None)
                     other = OTHER_UNIT[unit]
                     copies = ["x.v", "x.value", "x.to_ndarray()", "x.to_value()", "x.to_value(%r)" % unit,
                               "x.to_value(x.units)", "x.to_value(%r)" % other, "x.copy()", "x.copy(order='K')",
@@ -772,7 +794,7 @@ def section_build():
     # lists of quantities in mixed units
     groups = [("km", "m"), ("m", "km"), ("cm", "m", "km"), ("g", "kg"), ("s", "ms", "minute"), ("J", "erg"),
               ("km/s", "m/s"), ("m", "m"), ("N", "dyn", "N"), ("K", "R"), ("m", "cm", "m", "km"), ("km",),
-              ("hr", "s"), ("Msun", "g"), ("pc", "lyr", "AU"), ("m**2", "cm**2"), ("rad", "degree")]
+              ("hr", "s"), ("Msun", "g"), ("pc", "ly", "AU"), ("m**2", "cm**2"), ("rad", "degree")]
     evaluate("build-list", "pinned-km-m", "[1 km, 500 m]",
              "e = [unyt_quantity(1, 'km'), unyt_quantity(500, 'm')]", "unyt_array(e)",
              "_coerced(r, e) + ([] if list(np.asarray(r)) == [1.0, 0.5] and str(r.units) == 'km' else "
